@@ -123,6 +123,8 @@ def validate(execs, nproc):
                 ress.append(res)
                 if res.error or res.rc != 0 or not res.cases:
                     i = res.out.find("Error:")
+                    with open(os.path.join(common.scratch_root(), "c16-last-failed-trace-validation.log"), "w") as fh:
+                        fh.write(res.out)
                     raise common.InfraError("trace validation with StatsTrace failed (rc=%s %s)\n%s" % (
                         res.rc, res.error, res.out[max(0, i - 200):i + 2500] if i >= 0 else res.out[-3000:]))
                 rep = res.cases[-1]
